@@ -153,9 +153,11 @@ func (c *Calcium) withNodesLocked(ctx context.Context, nodeFilter *types.NodeFil
 		return err
 	}
 
+	// lock in ascending key order (not in node order), so that every caller agrees on one order
+	keys := utils.Map(ns, genKey)
+	sort.Strings(keys)
 	var lock lock.DistributedLock
-	for _, n := range ns {
-		key := genKey(n)
+	for _, key := range keys {
 		if _, ok := locks[key]; !ok {
 			lock, ctx, err = c.doLock(ctx, key, c.config.LockTimeout)
 			if err != nil {
@@ -165,6 +167,8 @@ func (c *Calcium) withNodesLocked(ctx context.Context, nodeFilter *types.NodeFil
 			locks[key] = lock
 			lockKeys = append(lockKeys, key)
 		}
+	}
+	for _, n := range ns {
 		nodes[n.Name] = n
 	}
 	return f(ctx, nodes)
